@@ -103,6 +103,19 @@ Definition downsample_genes {A} (m : cbg A) (sel : list Z) : result (cbg A) :=
            end
        end.
 
+(* downsample_cells(selected_cells) of a matrix WITHOUT cell identifiers (selected_cells = integer row
+   indices, here non-negative): subset = data[idx, :] and then a NEW CellByGeneMatrix is built by the
+   constructor -- shape and gene-identifier checks again, and _genes_downsampled starts False: the
+   guard set by an earlier downsample_genes is LOST (audit 3, A13; observed on the real code:
+   downsample_genes -> downsample_cells -> to_log2CPM is accepted and normalises over the gene
+   subset; no caller in the mapping pipeline does this: election / matching down-select cells only on
+   the reference side, whose matrix is already log2CPM).  None in the index list = IndexError. *)
+Definition downsample_cells_idx {A} (m : cbg A) (idx : list nat) : result (cbg A) :=
+  match opt_all (map (nth_error (c_data m)) idx) with
+  | None => Err EIndex
+  | Some d => make_cbg (c_genes m) d (c_norm m)
+  end.
+
 (* write_query_markers_to_h5: every marker is looked up in the query names (KeyError if
    absent); "all_query_markers" = sorted distinct query indices of all markers = the query
    genes that are markers, in QUERY order.  lists = the per-parent marker lists, each in
@@ -214,22 +227,26 @@ Definition run_make (x : sx) : sx :=
   end.
 
 (* tag 703: (genes data norm sel_1 ... ) : CellByGeneMatrix(...) then the listed operations in
-   order; an operation is (0) = to_log2CPM_in_place, (1 sel) = downsample_genes(sel).
+   order; an operation is (0) = to_log2CPM_in_place, (1 sel) = downsample_genes(sel),
+   (2 idx) = downsample_cells(idx) (integer row indices).
    Counts are carried as fractions (n,1) so that one value type serves before and after
    normalisation; to_log2cpm reads the numerators.  Result: the final matrix. *)
 Definition as_counts (m : cbg frac) : cbg Z :=
   mk_cbg (c_genes m) (map (map fst) (c_data m)) (c_norm m) (c_down m).
-Definition sx_op (x : sx) : option (option (list Z)) :=
+Inductive cbg_op : Type := OpLog | OpGenes (sel : list Z) | OpCells (idx : list nat).
+Definition sx_op (x : sx) : option cbg_op :=
   match x with
-  | L [I 0] => Some None
-  | L [I 1; s] => match sx_LZ s with Some sel => Some (Some sel) | None => None end
+  | L [I 0] => Some OpLog
+  | L [I 1; s] => match sx_LZ s with Some sel => Some (OpGenes sel) | None => None end
+  | L [I 2; s] => match sx_Lnat s with Some idx => Some (OpCells idx) | None => None end
   | _ => None
   end.
-Fixpoint apply_ops (m : cbg frac) (ops : list (option (list Z))) : result (cbg frac) :=
+Fixpoint apply_ops (m : cbg frac) (ops : list cbg_op) : result (cbg frac) :=
   match ops with
   | [] => Ok m
-  | None :: t => bind (to_log2cpm frac fnorm (as_counts m)) (fun m' => apply_ops m' t)
-  | Some sel :: t => bind (downsample_genes m sel) (fun m' => apply_ops m' t)
+  | OpLog :: t => bind (to_log2cpm frac fnorm (as_counts m)) (fun m' => apply_ops m' t)
+  | OpGenes sel :: t => bind (downsample_genes m sel) (fun m' => apply_ops m' t)
+  | OpCells idx :: t => bind (downsample_cells_idx m idx) (fun m' => apply_ops m' t)
   end.
 Definition run_ops (x : sx) : sx :=
   match x with
